@@ -6,6 +6,7 @@ import (
 	"fmt"
 	"testing"
 
+	"github.com/containerd/nri/pkg/api"
 	corev1 "k8s.io/api/core/v1"
 	"k8s.io/apimachinery/pkg/api/resource"
 	metav1 "k8s.io/apimachinery/pkg/apis/meta/v1"
@@ -270,6 +271,55 @@ func TestVerifC14Webhook(t *testing.T) {
 				}
 			}
 		}
+		// ---- the NRI path reads the same labels + annotations from the sandbox; it must agree with the proxy path ----
+		{
+			sandbox := &api.PodSandbox{Id: "sb", Name: "p", Namespace: "ns", Uid: "u", Labels: pod.Labels, Annotations: pod.Annotations,
+				Linux: &api.LinuxPodSandbox{CgroupParent: "kubepods/besteffort/podu"}}
+			h.Op("pod %d %d %d %s", vB(isBE), vB(hasSpec), len(declared), vInts(flat))
+			h.Obs("eff 1 -100")
+			nctx := &protocol.PodContext{}
+			nctx.Request.FromNri(sandbox)
+			if h.Guard(func() { _ = hook.SetPodResources(nctx) }) {
+				h.Obs("pod panic")
+			} else {
+				s, v, ok := c14wShow(&nctx.Response.Resources)
+				h.Obs("pod %s", s)
+				if ok != podOK || v != podOut {
+					h.Fail("C14:nri-path-differs", "pod: proxy path gives %v (set=%v), NRI path %v (set=%v)", podOut, podOK, v, ok)
+				}
+			}
+			for _, d := range ds {
+				cctx := &protocol.ContainerContext{}
+				cctx.Request.FromNri(sandbox, &api.Container{Id: "x", Name: d.name, PodSandboxId: "sb"})
+				if h.Guard(func() { _ = hook.SetContainerResources(cctx) }) {
+					if d.declared {
+						h.Obs("ctr panic")
+					}
+					continue
+				}
+				s, v, ok := c14wShow(&cctx.Response.Resources)
+				if !d.declared {
+					if ok {
+						h.Fail("C14:undeclared-container-touched", "NRI path: container %s declares no batch resource but got %v", d.name, v)
+					}
+					continue
+				}
+				h.Obs("ctr %s", s)
+				if isBE {
+					wantM := d.mem
+					if wantM <= 0 {
+						wantM = -1
+					}
+					if !ok {
+						h.Fail("C14:webhook-container-dropped", "NRI path: container %s declares batch resources but nothing was injected", d.name)
+					} else if v[0] != c14wStdShares(d.req) || v[1] != c14wStdQuota(d.lim) || v[2] != wantM {
+						h.Fail("C14:webhook-container-conversion", "NRI path: container %s got %v want %d %d %d", d.name, v, c14wStdShares(d.req), c14wStdQuota(d.lim), wantM)
+					}
+				} else if ok {
+					h.Fail("C14:non-be-touched", "NRI path: container of a non-BE pod touched")
+				}
+			}
+		}
 		// ---- the reconciler path reads the pod SPEC (not the annotation); it must agree with the proxy path ----
 		for i := range pod.Spec.Containers {
 			pod.Status.ContainerStatuses = append(pod.Status.ContainerStatuses, corev1.ContainerStatus{
@@ -321,5 +371,5 @@ func TestVerifC14Webhook(t *testing.T) {
 		h.End()
 	}
 	h.Close("pod spec with 1-5 containers declaring batch-cpu/batch-memory requests/limits (missing request, limits only, zero, fractional/huge binary-suffix quantities, extra native entries) " +
-		"-> real webhook step mutateByExtendedResources -> (a) runtime-proxy request built from labels+annotations, (b) reconciler request built from the pod spec -> real BatchResource hook, both compared; non-trivial = BE pod with at least one declaring container")
+		"-> real webhook step mutateByExtendedResources -> (a) runtime-proxy request built from labels+annotations, (a') NRI sandbox with the same labels+annotations, (b) reconciler request built from the pod spec -> real BatchResource hook, all compared; non-trivial = BE pod with at least one declaring container")
 }
